@@ -174,7 +174,7 @@ def node(rng, env, depth, greedy_ok=False, bit=False):
         sub = int_leaf(rng)
         return A.RepeatUntil(A.Bin(rng.choice(["==", ">", "!="]), A.Obj, A.C(rng.choice([0, 1, 255]))), sub)
     if r < 0.39:
-        return A.PrefixedArray(len_field(rng), node(rng, env, depth - 1))
+        return A.PrefixedArray(len_field(rng), node(rng, Env(env), depth - 1))      # the macro's FocusedSeq is a scope of its own
     if r < 0.46:
         return A.Prefixed(len_field(rng), node(rng, env, depth - 1, True), incl=rng.random() < 0.25)
     if r < 0.52:
